@@ -84,7 +84,12 @@ pub fn run(env: &mut Env) -> Outcome {
             match letter {
                 0 => {
                     da_count += 1;
-                    share_id = params.share_id.wrapping_add(da_count * 0x10001);
+                    // a server may well reuse the share id of the previous activation
+                    if da_count == 1 || !ctxrc.borrow_mut().chance("reuse_share_id", 1, 3) {
+                        share_id = params.share_id.wrapping_add(da_count * 0x10001);
+                    } else {
+                        ctxrc.borrow_mut().probe("share_id_reused");
+                    }
                     srv.send_demand_active(share_id);
                 }
                 1 => srv.send_data_pdu("synchronize", 0x1f, &build::synchronize_payload(uid)),
